@@ -1,4 +1,5 @@
 import ALock.Lemmas.Mutex
+import ALock.Lemmas.AtomicMutex
 
 /-!
 # C01 — Mutex: at most one holder (and release happens-before the next acquire)
@@ -8,11 +9,20 @@ Arc-owned, obtained by lock, lock_blocking, try_lock or their _arc forms) is ali
 Everything done to the value under one guard happens-before everything done under any later
 guard, on any thread.
 
-This file proves the exclusion half on the poll-granular model for **every** history (any mix of
+Part 1 proves the exclusion half on the poll-granular model for **every** history (any mix of
 `lock`, `lock_arc`, `try_lock`, `try_lock_arc`, cancellations, the 0.5 ms branch taken or not at
-every opportunity; "std off" is the special case `fire = false`).  The same half for arbitrary
-interleavings of atomic operations is `ALock.MutexS` (small-step model), and the happens-before
-half is `ALock.Mem` — see those files and `DESIGN.md` for what is partial.
+every opportunity; "std off" is the special case `fire = false`); that model is tied to the code
+by the differential run.
+
+Part 2 (`ALock.Atomic.Mutex`) proves both halves for **every interleaving of the crate's atomic
+operations** by any number of threads: one step = one atomic operation on `Mutex::state`.  That
+model is tied to the code by the generated site table (`Generated/Atomics.lean`, extracted from
+/repo's sources on every run): `C01_shape_ok` states that the operations on the word, with their
+operands, in source order, are the ones the model has steps for; `C01_ord_ok` that the orderings
+the code passes at the four synchronising sites are at least Acquire / Release.  What stays outside:
+the control flow between the sites (which the poll-granular differential run exercises), and the
+memory model is the release/acquire fragment with RMW release sequences (no load buffering, no
+SeqCst reasoning).
 -/
 
 namespace ALock.Mutex
@@ -89,3 +99,42 @@ example :
     s.guards.length = 1 ∧ s.c.st = 1 ∧ starvedLive s = 0 := by decide
 
 end ALock.Mutex
+
+/-! ## Part 2 — every interleaving of the atomic operations; happens-before -/
+
+namespace ALock.Atomic.Mutex
+
+/-- the model's steps are the operations the code performs on `Mutex::state` (generated table) -/
+theorem C01_shape_ok : sites.map Site.shape = expectedShapes := by decide
+
+/-- the orderings the code passes at the synchronising sites are strong enough (generated table) -/
+theorem C01_ord_ok : ords.ok := by unfold Ords.ok; decide
+
+/-- **C01 (exclusion under every interleaving).** Whatever the orderings, after any sequence of
+atomic steps by any number of agents at most one holds the mutex, and the word is
+`holders + 2 · starved`. -/
+theorem C01_interleaved (o : Ords) (l : List Step) :
+    holders (run o {} l) ≤ 1 ∧ (run o {} l).st = holders (run o {} l) + 2 * starvedN (run o {} l) :=
+  have h := run_winv o {} l init_winv
+  ⟨h.excl, h.word⟩
+
+/-- **C01 (release happens-before the next acquire).** With the orderings of the code, whenever an
+agent holds the mutex — in particular at each of its accesses to the protected value — every
+critical section completed before is in its view: everything done under an earlier guard
+happens-before everything done under a later one, on any thread. -/
+theorem C01_hb (l : List Step) :
+    ∀ a ∈ (run ords {} l).ags, a.holder = true → ∀ k ∈ (run ords {} l).done, k ∈ a.view :=
+  (run_inv ords C01_ord_ok {} l init_winv init_vinv).2.held
+
+/-- with a relaxed unlock the same statement is false: the model distinguishes the orderings -/
+example :
+    let o : Ords := { ords with relUnlock := false }
+    let s := run o {} [.spawn, .spawn, .cas01 0, .crit 0, .unlock 0, .cas01 1]
+    s.done = [0] ∧ (s.ags.map (·.view)) = [[0], []] := by decide
+
+/-- non-vacuity: two agents, two critical sections, the second sees the first -/
+example :
+    let s := run ords {} [.spawn, .spawn, .cas01 0, .starve 1, .crit 0, .unlock 0, .fetchOr 1, .crit 1]
+    s.done = [1, 0] ∧ (s.ags.map (·.view)) = [[0], [1, 0]] ∧ s.st = 3 := by decide
+
+end ALock.Atomic.Mutex
